@@ -316,12 +316,17 @@ transcodeString(
     {
         XalanTranscodingServices::eCode     theCode = XalanTranscodingServices::OK;
 
+        // The whole string is transcoded in one call, so the
+        // transcoder's block must be able to hold all of it...
+        const XalanDOMString::size_type     theBlockSize =
+                XalanDOMString::length(theString) + 1 > 1024 ? XalanDOMString::length(theString) + 1 : 1024;
+
         XalanOutputTranscoder* const    theTranscoder = 
             XalanTranscodingServices::makeNewTranscoder(
                         XalanMemMgrs::getDefaultXercesMemMgr(),
                         XalanDOMString(theStringEncoding, XalanMemMgrs::getDefaultXercesMemMgr()),
                         theCode,
-                        1024);
+                        theBlockSize);
 
         if (theCode == XalanTranscodingServices::UnsupportedEncoding)
         {
